@@ -91,6 +91,17 @@ def generate(prop, rng, seed, index, tier):
             if rng.random() < 0.3:
                 src['short'] = [rng.choice([1, 2, 3, None]) for _ in range(rng.randrange(1, 4))]
             text = text2
+            if rng.random() < 0.3:
+                # a second source tails another file by name in the same process: the two have nothing in common
+                src['twin_text'] = True
+                text3 = ''.join(rng.choice(alpha2) for _ in range(rng.randrange(1, 16))) + (d if rng.random() < 0.7 else '')
+                raw3 = text3.encode('utf-8')
+                cuts3 = sorted(rng.randrange(0, len(raw3) + 1) for _ in range(rng.randrange(1, 6)))
+                prev, t3 = 0, 0.0
+                for c in cuts3 + [len(raw3)]:
+                    t3 += rng.choice(GRID)
+                    ops.append({'t': t3, 'op': 'append', 'hex': raw3[prev:c].hex(), 'file': 2})
+                    prev = c
         nrec = len(text.split(d))
         maxlat = max([x or 0 for x in sink.get('lat', [0])] + [0])
         sc = {'format': 1, 'family': 'files', 'property': 'C17', 'seed': seed, 'index': index, 'source': src,
@@ -152,10 +163,18 @@ def _sink_spans(ev):
     return [(st, ends[k] if k < len(ends) else None) for k, st in enumerate(starts)]
 
 
-def _bytes_written(sc):
+def _bytes_written(sc, which=None):
     s = sc['source']
     order = sorted(enumerate(o for o in sc['ops'] if not o.get('skip')), key=lambda p: (p[1]['t'], p[0]))
-    return bytes.fromhex(s.get('pre_hex', '')) + b''.join(bytes.fromhex(o['hex']) for _, o in order if o['op'] == 'append')
+    return (bytes.fromhex(s.get('pre_hex', '')) if which is None else b'') + \
+        b''.join(bytes.fromhex(o['hex']) for _, o in order if o['op'] == 'append' and o.get('file') == which)
+
+
+def _universal(text):
+    # universal newlines; a CR at the very end is not decided yet (an LF may follow): it is held back
+    if text.endswith('\r'):
+        text = text[:-1]
+    return text.replace('\r\n', '\n').replace('\r', '\n')
 
 
 def evaluate(prop, sc, want_trace=False):
@@ -165,6 +184,7 @@ def evaluate(prop, sc, want_trace=False):
         import codecs
         try:
             codecs.getincrementaldecoder('utf-8')().decode(_bytes_written(sc), False)
+            codecs.getincrementaldecoder('utf-8')().decode(_bytes_written(sc, 2), False)
         except UnicodeDecodeError:
             out = Outcome()
             out.status = 'invalid_scenario'
@@ -192,14 +212,11 @@ def evaluate(prop, sc, want_trace=False):
             (o for o in ops if o['op'] == 'append'), key=lambda o: o['t']))
         # appends are applied in (t, position) order, the same order the executor uses
         order = sorted(enumerate(ops), key=lambda p: (p[1]['t'], p[0]))
-        visible = s.get('pre', '') + ''.join(o.get('data', '') for _, o in order if o['op'] == 'append')
+        visible = s.get('pre', '') + ''.join(o.get('data', '') for _, o in order if o['op'] == 'append' and not o.get('file'))
         if s.get('by_path'):
             import codecs
             visible = codecs.getincrementaldecoder('utf-8')().decode(_bytes_written(sc), False)
-            # universal newlines; a CR at the very end is not decided yet (an LF may follow): it is held back
-            if visible.endswith('\r'):
-                visible = visible[:-1]
-            visible = visible.replace('\r\n', '\n').replace('\r', '\n')
+            visible = _universal(visible)
         startpos = len(s.get('pre', '')) if s.get('from_end') else 0
         body = visible[startpos:]
         expected = [r + d for r in body.split(d)[:-1]]
@@ -219,6 +236,16 @@ def evaluate(prop, sc, want_trace=False):
             V.append(Violation('C17', 'C17.records', len(ev) - 1,
                                'from_textfile emitted %d of %d complete records; first missing %r (text %r, delimiter %r)'
                                % (len(got), len(expected), expected[len(got)], body, d), node_op='from_textfile'))
+        if not V and s.get('twin_text'):
+            import codecs
+            body2 = _universal(codecs.getincrementaldecoder('utf-8')().decode(_bytes_written(sc, 2), False))
+            exp2 = [r + d for r in body2.split(d)[:-1]]
+            got2 = [e[3] for e in ev if e[2] == 'twin_emit']
+            if got2 != exp2[:len(got2)] or (ended and status == 'ok' and got2 != exp2):
+                V.append(Violation('C17', 'C17.records', len(ev) - 1,
+                                   'a second from_textfile source tailing another file by name emitted %r, its records are %r (text %r, delimiter %r)'
+                                   % (got2, exp2, body2, d), node_op='from_textfile'))
+            out.probes['two_files_tailed_by_name'] = 1
         if len(expected) >= 2:
             out.probes['records>=2'] = 1
             reads = [e[4] if isinstance(e[4], str) else e[4].decode('utf-8', 'replace')
